@@ -217,6 +217,87 @@ def h_vectors(ctx):
 
 _pv = Part("rfc-vectors", h_vectors, split_depth=1)
 _pv.single_bucket_ok = True
+def h_nested_edit(ctx):
+    """Two peer tokens with the same protected header, which holds nested values (crit, x5c, jwk); the caller edits a nested value
+    of the first returned header in place; the second token still verifies and yields the header that is on the wire."""
+    from joserfc import jws, rfc7797, jwt
+    alg, kind = ctx.choose("alg/key", [("HS256", "oct32"), ("ES256", "P-256")])
+    shape = ctx.choose("header", ["b64=false + crit", "x5c chain", "jwk member", "crit over a registered extension"])
+    ep = ctx.choose("entry_point", ["deserialize_compact", "extract+validate", "jwt.decode"])
+    edit = ctx.choose("nested_edit", ["remove / pop an item", "append an item", "clear()"])
+    jwk = scen.key(kind)
+    hdr = {"alg": alg}
+    b64mode = True
+    if shape.startswith("b64"):
+        hdr.update({"b64": False, "crit": ["b64"]})
+        b64mode = False
+    elif shape == "x5c chain":
+        hdr["x5c"] = ["AAAA", "BBBB", "CCCC"]
+    elif shape == "jwk member":
+        hdr["jwk"] = rjwk.public_of(scen.key("P-256", 4))
+    else:
+        hdr.update({"crit": ["exp"], "exp": 1999999999})
+    if ep == "jwt.decode" and not b64mode:
+        return Outcome("n/a", [], nontrivial=None)
+    seg = b64.enc(rjws.hdr_json(hdr).encode())
+    key = A.jkey(jwk, "dict", private=(jwk["kty"] == "oct"))
+
+    def tok(payload):
+        sig = b64.enc(ref_sign(alg, jwk, rjws.signing_input(seg, payload, b64mode), "as-is"))
+        return seg + "." + (b64.enc(payload) if b64mode else payload.decode()) + "." + sig
+    from joserfc.registry import HeaderParameter
+    reg_cls = rfc7797.JWSRegistry if not b64mode else jws.JWSRegistry
+    reg = reg_cls(header_registry={"exp": HeaderParameter("expires", "int")}, algorithms=[alg])
+
+    def verify(t):
+        if ep == "jwt.decode":
+            o = jwt.decode(t, key, registry=reg)
+            return o.header, json.dumps(o.claims, separators=(",", ":")).encode()
+        mod = rfc7797 if not b64mode else jws
+        if ep == "deserialize_compact":
+            o = mod.deserialize_compact(t, key, registry=reg)
+        else:
+            o = jws.extract_compact(t.encode()) if b64mode else None
+            if o is None:
+                o = mod.deserialize_compact(t, key, registry=reg)
+            elif jws.validate_compact(o, key, registry=reg) is not True:
+                raise ValueError("validate_compact did not return True")
+        return o.protected, bytes(o.payload)
+    p1, p2 = (b'{"n":1}', b'{"n":2}') if b64mode else (b"first_payload", b"second_payload")
+    vs = []
+    tag = f"{alg[:2]}* compact, header with {shape}, {ep}"
+    r1 = call(verify, tok(p1))
+    if not r1.ok:
+        return Outcome("first-rejected", [viol(f"joserfc rejects a valid token of the independent implementation: {tag}", repr(r1.exc))], nontrivial=(alg, shape, ep, edit))
+    h = r1.value[0]
+    for name in ("crit", "x5c"):
+        if isinstance(h.get(name), list):
+            if edit.startswith("remove"):
+                h[name].pop(0)
+            elif edit.startswith("append"):
+                h[name].append("added-by-the-caller")
+            else:
+                h[name].clear()
+    if isinstance(h.get("jwk"), dict):
+        if edit.startswith("remove"):
+            h["jwk"].pop("x", None)
+        elif edit.startswith("append"):
+            h["jwk"]["d"] = "AAAA"
+        else:
+            h["jwk"].clear()
+    r2 = call(verify, tok(p2))
+    if not r2.ok:
+        vs.append(viol(f"joserfc rejects a valid peer token after the caller edited a nested value of an earlier token's header: {tag}", f"{edit}: {r2.exc!r}"))
+    else:
+        want = {**hdr, **({"typ": "JWT"} if False else {})}
+        got = {k_: v_ for k_, v_ in r2.value[0].items()}
+        if got != want:
+            vs.append(viol(f"joserfc returns a header other than the one on the wire after the caller edited a nested value of an earlier token's header: {tag}", f"{edit}: {want} -> {got}"))
+        if r2.value[1] != p2:
+            vs.append(viol(f"joserfc returns a different payload for a foreign token: {tag}", f"{p2!r} -> {r2.value[1]!r}"))
+    return Outcome(f"nested-edit:{'ok' if not vs else 'bad'}", vs, nontrivial=(alg, shape, ep, edit))
+
+
 def h_multi_signer(ctx):
     """joserfc signs general JSON for 2-3 signers whose members name alg / kid in the protected header, split them, or have no
     protected header, in every order; each signature is verified by the reference (C03's part, only the wire-format findings)."""
@@ -234,8 +315,10 @@ def h_threads(ctx):
 
 _pms = Part("joserfc-multi-signer-to-ref", h_multi_signer, split_depth=2)
 _pms.single_bucket_ok = True
+_pne = Part("nested-header-values-edited-by-the-caller", h_nested_edit, split_depth=2)
+_pne.single_bucket_ok = True
 PARTS = [
-    _pms,
+    _pms, _pne,
     Part("thread-schedules", h_threads, bound={"quick": 1, "thorough": 2}, split_depth=3, budget={"quick": 2000, "thorough": 3000}, engine="E3"),
     Part("ref-to-joserfc", h_from_ref, split_depth=2, budget={"quick": 1200, "thorough": 1500}),
     Part("joserfc-to-ref", h_to_ref, split_depth=2, budget={"quick": 1200, "thorough": 1500}),
